@@ -47,7 +47,12 @@ func rndAddr(r *rand.Rand) sdk.Address {
 	return a
 }
 
-func rndInt(r *rand.Rand) sdk.Int { return sdk.NewIntFromBigInt(genBig(r)) }
+func rndInt(r *rand.Rand) sdk.Int {
+	if r.Intn(12) == 0 {
+		return sdk.Int{} // never set
+	}
+	return sdk.NewIntFromBigInt(genBig(r))
+}
 
 func rndMsg(r *rand.Rand, kind string) sdk.Msg {
 	k := chain.Keys[r.Intn(chain.NKeys)]
@@ -189,7 +194,9 @@ func (f *Fam) execWire(op string, w []string, fail func(string, string, string))
 		// (for messages the node can accept at all: a decoded message that fails ValidateBasic - e.g. a change-param
 		// message whose empty value became nil - is refused before any signature is looked at)
 		sb := signBytesOf(tx)
-		if !basicOK(btx.Msg) {
+		if !basicOK(btx.Msg) && w[1] == "changeparam" {
+			// (the one known case: a change-param message whose empty value decodes to nil signs differently, and is
+			// refused by ValidateBasic before any signature is looked at)
 			f.extra["wire:sign-bytes-clause-skipped-invalid-msg"]++
 		} else if !bytes.Equal(sb, signBytesOf(btx)) || (jsonOK && !bytes.Equal(sb, signBytesOf(jtx))) {
 			fail("sign-bytes", "C20:sign-bytes-depend-on-encoding", fmt.Sprintf("%s: original %s / after binary %s / after JSON(%v) %s", op, sb, signBytesOf(btx), jsonOK, signBytesOf(jtx)))
